@@ -40,6 +40,7 @@ type Prover struct {
 	Par      int
 	TwoAgree bool
 	cacheMu  sync.Mutex
+	Claimed  map[string]bool // ledger keys: obligations outside it (never discharged on the unchanged tree) get a short timeout
 }
 
 // render builds the SMT-LIB text of an obligation.
@@ -132,6 +133,9 @@ func (p *Prover) discharge(ob *Ob, globals []string) *ObResult {
 	timeout := p.Timeout
 	if ob.ExpectSat && timeout > 2*time.Second {
 		timeout = 2 * time.Second // vacuity checks are best effort: "not refuted quickly"
+	}
+	if p.Claimed != nil && !p.Claimed[ob.Key] && ob.Kind != "nopanic" && timeout > 3*time.Second {
+		timeout = 3 * time.Second // not claimed: reported as unclaimed if it does not discharge quickly
 	}
 	sum := sha256.Sum256([]byte(text))
 	h := hex.EncodeToString(sum[:8])
